@@ -114,11 +114,18 @@ where
                 env.system.tcsetpgrp(tty, job.pid).await?;
             }
 
-            let pgid = -job.pid;
+            let pid = job.pid;
+            let pgid = -pid;
             env.system.kill(pgid, Some(S::SIGCONT)).await?;
 
+            // The job has been resumed. Record it now: if the job is suspended
+            // again before we wait for it, the system reports only the new
+            // suspension, which must still count as one (the job becomes the
+            // current job).
+            env.jobs.update_status(pid, ProcessState::Running);
+
             // Wait for the job to finish (or suspend again).
-            let result = env.wait_for_subshell_to_halt(job.pid).await?.1;
+            let result = env.wait_for_subshell_to_halt(pid).await?.1;
 
             // Move the shell back to the foreground.
             if let Some(tty) = tty {
